@@ -21,6 +21,8 @@ try/except/finally, loops with break/continue, early return/raise are modelled:
 import ast
 
 TERMINATED = None
+# last path segment of callees known never to return (every path raises); filled by noneflow.noreturn_functions
+NORETURN = set()
 
 
 def callee_text(call):
@@ -177,7 +179,7 @@ class Facts:
         # sys.exit()/os._exit() terminate
         if isinstance(s, ast.Expr) and isinstance(s.value, ast.Call):
             ct = callee_text(s.value)
-            if ct in ("sys.exit", "exit", "os._exit", "quit"):
+            if ct in ("sys.exit", "exit", "os._exit", "quit") or ct.split(".")[-1] in NORETURN:
                 self.exits.append(("exit", s, out))
                 return TERMINATED
         # an assignment invalidates condition facts mentioning the assigned names
